@@ -267,6 +267,105 @@ done:
   return 1;
 }
 
+
+/* rtseq nc w h iseed kind nimg qseed : several images through ONE compression object and ONE decompression object (8-bit).  The first
+ * is a complete file; the others are abbreviated images (jpeg_start_compress(FALSE)) written after the quantisation tables have been
+ * redefined (jpeg_set_quality / jpeg_add_quant_table), optionally preceded by a tables-only datastream.  The decoder keeps its tables
+ * between images, as documented.  Every image must satisfy the error bound for the tables the decoder holds, and those tables must be
+ * the ones the compressor quantised with. */
+static int c07_rtseq(toks_t *t)
+{
+  struct jpeg_compress_struct c; struct jpeg_decompress_struct d; my_err_t ec, ed; c07_job j;
+  unsigned long long iseed = (unsigned long long)tll(t, 4), qs = (unsigned long long)tll(t, 7);
+  int kind = (int)tl(t, 5), nimg = (int)tl(t, 6), im, x, y, ci, k, ok = 1; int *dec = NULL; JSAMPLE *row = NULL;
+  unsigned char *bufs[8] = { 0 }; unsigned long lens[8] = { 0 }; unsigned dq[4][64];
+  memset(&j, 0, sizeof(j));
+  j.prec = 8; j.nc = (int)tl(t, 1); j.w = (int)tl(t, 2); j.h = (int)tl(t, 3); j.ntbl = 1;
+  if (nimg > 4) nimg = 4;
+  j.img = (int *)malloc(sizeof(int) * (size_t)j.w * j.h * j.nc);
+  dec = (int *)calloc((size_t)j.w * j.h * j.nc, sizeof(int));
+  row = (JSAMPLE *)malloc((size_t)j.w * j.nc);
+  c.err = my_err_init(&ec); d.err = my_err_init(&ed);
+  jpeg_create_compress(&c); jpeg_create_decompress(&d);
+  if (setjmp(ec.jb)) { printf("R err compress %d\n", ec.code); printf("O fail rtseq: compressor rejected a valid request (code %d)\n", ec.code); goto done; }
+  if (setjmp(ed.jb)) { printf("R err decode %d\n", ed.code); printf("O fail rtseq: own output not decodable (code %d)\n", ed.code); goto done; }
+  c.image_width = (JDIMENSION)j.w; c.image_height = (JDIMENSION)j.h; c.input_components = j.nc;
+  c.in_color_space = j.nc == 1 ? JCS_GRAYSCALE : JCS_RGB;
+  jpeg_set_defaults(&c);
+  jpeg_set_colorspace(&c, c.in_color_space);
+  c.dct_method = JDCT_ISLOW;
+  for (ci = 0; ci < j.nc; ci++) { c.comp_info[ci].quant_tbl_no = 0; c.comp_info[ci].h_samp_factor = c.comp_info[ci].v_samp_factor = 1; }
+  printf("R seq");
+  for (im = 0; im < nimg && ok; im++) {
+    unsigned long long h = c07_mix(qs + (unsigned long long)im * 977ULL);
+    int how = (int)(h % 3ULL), tablesfirst = im > 0 && ((h >> 8) & 1ULL);
+    unsigned cq[64];
+    for (y = 0; y < j.h; y++) for (x = 0; x < j.w; x++) for (ci = 0; ci < j.nc; ci++)
+      j.img[((size_t)y * j.w + x) * j.nc + ci] = c07_sample(iseed + (unsigned long long)im, kind, 255, ci, x, y);
+    /* redefine table 0 */
+    if (how == 0) jpeg_set_quality(&c, 1 + (int)((h >> 16) % 100ULL), FALSE);
+    else if (how == 1) { unsigned q[64]; for (k = 0; k < 64; k++) q[k] = 1 + (unsigned)((h >> 20) % 60ULL) + (unsigned)k % 5; jpeg_add_quant_table(&c, 0, q, 100, FALSE); }
+    else jpeg_set_linear_quality(&c, 10 + (int)((h >> 16) % 400ULL), FALSE);
+    for (k = 0; k < 64; k++) cq[k] = c.quant_tbl_ptrs[0]->quantval[k];
+    jpeg_mem_dest(&c, &bufs[im * 2], &lens[im * 2]);
+    if (tablesfirst) { jpeg_write_tables(&c); jpeg_mem_dest(&c, &bufs[im * 2 + 1], &lens[im * 2 + 1]); }
+    jpeg_start_compress(&c, im == 0 ? TRUE : FALSE);
+    for (y = 0; y < j.h; y++) {
+      JSAMPROW rp = row;
+      for (x = 0; x < j.w * j.nc; x++) row[x] = (JSAMPLE)j.img[(size_t)y * j.w * j.nc + x];
+      jpeg_write_scanlines(&c, &rp, 1);
+    }
+    jpeg_finish_compress(&c);
+    /* decode with the persistent decompressor */
+    if (tablesfirst) {
+      jpeg_mem_src(&d, bufs[im * 2], lens[im * 2]);
+      if (jpeg_read_header(&d, FALSE) != JPEG_HEADER_TABLES_ONLY) { printf("\nO fail rtseq: tables-only datastream not recognised\n"); ok = 0; break; }
+      jpeg_mem_src(&d, bufs[im * 2 + 1], lens[im * 2 + 1]);
+    } else jpeg_mem_src(&d, bufs[im * 2], lens[im * 2]);
+    jpeg_read_header(&d, TRUE);
+    d.dct_method = JDCT_ISLOW; d.out_color_space = d.jpeg_color_space;
+    for (ci = 0; ci < j.nc; ci++) { JQUANT_TBL *qt = d.quant_tbl_ptrs[d.comp_info[ci].quant_tbl_no]; for (k = 0; k < 64; k++) dq[ci][k] = qt ? qt->quantval[k] : 0; }
+    jpeg_start_decompress(&d);
+    for (y = 0; y < j.h; y++) {
+      JSAMPROW rp = row;
+      if (jpeg_read_scanlines(&d, &rp, 1) != 1) break;
+      for (x = 0; x < j.w * j.nc; x++) dec[(size_t)y * j.w * j.nc + x] = row[x];
+    }
+    jpeg_finish_decompress(&d);
+    printf(" %lu", lens[im * 2] + lens[im * 2 + 1]);
+    for (k = 0; k < 64 && ok; k++) if (dq[0][k] != cq[k]) {
+      printf("\nO fail rtseq: image %d of the sequence (%s%s): the decoder holds quantisation step %u at index %d, the compressor used %u\n", im,
+             im ? "abbreviated" : "complete", tablesfirst ? ", after a tables-only datastream" : "", dq[0][k], k, cq[k]);
+      ok = 0;
+    }
+    if (ok) {
+      /* error bound for the tables the decoder holds */
+      int by, bx, hb = (j.h + 7) / 8, wb = (j.w + 7) / 8;
+      for (ci = 0; ci < j.nc && ok; ci++) {
+        double s = 0, B;
+        for (k = 0; k < 64; k++) { double v = dq[ci][k] / 2.0 + 0.5; s += v * v; }
+        B = sqrt(s / 64.0) + 1.0;
+        for (by = 0; by < hb && ok; by++) for (bx = 0; bx < wb && ok; bx++) {
+          double se = 0; int r, cc;
+          for (r = 0; r < 8; r++) for (cc = 0; cc < 8; cc++) {
+            int yy = by * 8 + r, xx = bx * 8 + cc, dlt;
+            if (yy >= j.h || xx >= j.w) continue;
+            dlt = dec[((size_t)yy * j.w + xx) * j.nc + ci] - j.img[((size_t)yy * j.w + xx) * j.nc + ci];
+            se += (double)dlt * dlt;
+          }
+          if (se > 64.0 * B * B * (1 + 1e-9)) { printf("\nO fail rtseq: image %d, component %d block (%d,%d): squared error %.0f exceeds the bound %.1f for the tables the decoder holds\n", im, ci, by, bx, se, 64.0 * B * B); ok = 0; }
+        }
+      }
+    }
+  }
+  if (ok) printf("\nO ok\n");
+done:
+  jpeg_destroy_compress(&c); jpeg_destroy_decompress(&d);
+  for (k = 0; k < 8; k++) free(bufs[k]);
+  free(j.img); free(dec); free(row);
+  return 1;
+}
+
 /* blk prec q0..q63 s0..s63 : one gray block, explicit coefficients and decoded samples */
 static int c07_blk(toks_t *t)
 {
@@ -292,6 +391,7 @@ done:
 
 static int dispatch_c07(toks_t *t)
 {
+  if (!strcmp(t->tok[0], "rtseq") && t->n >= 8) return c07_rtseq(t);
   if (!strcmp(t->tok[0], "recip")) return c07_recip(t);
   if (!strcmp(t->tok[0], "quant")) return c07_quantop(t);
   if (!strcmp(t->tok[0], "rt")) return c07_rt(t);
